@@ -319,12 +319,35 @@ _time_cache = Contract(
     notes='time.time() is an abstract clock (a fresh number per call); the key function is a two-element generator',
 )
 
-CONTRACTS = [_scope_cache, _def_cache, _cache_node, _filter_init, _sig_key, _time_cache]
+# ------------------------------------------------------------------ which modules use the never-invalidated completion cache
+_cached_name = Contract(
+    id='C08.Completion._complete_trailer', prop='C08',
+    clause='the process-wide completion cache (keyed by module NAME, never invalidated - known finding F9 for the packages '
+           'it was made for) is switched on only for the four named third-party packages: for no other module, and in '
+           'particular for no module of the project or buffer being edited, may an answer come from it',
+    file='jedi/api/completion.py', qualname='Completion._complete_trailer',
+    params={'self': Obj('Compl8'), 'previous_leaf': Obj('PNode')},
+    families=['Compl8', 'ModCtxC8', 'ValC8', 'PNode'], ret=Tup(Opt(STR), ANY),
+    ensures=['implies(result[0] is not None, the(result[0]) in ("numpy", "tensorflow", "matplotlib", "pandas"))',
+             'result[1] == self._complete_trailer_for_values(infer_call_of_leaf('
+             'self._module_context.create_context(previous_leaf), previous_leaf))'],
+)
+
+CONTRACTS = [_cached_name, _scope_cache, _def_cache, _cache_node, _filter_init, _sig_key, _time_cache]
 
 
 def register(reg):
     from pyvc.values import MNS, MFn, SV
     import z3 as _z3
+    reg.add_family(Family('Compl8', attrs={'_module_context': Obj('ModCtxC8')}, methods={
+        '_complete_trailer_for_values': FnSpec('Completion._complete_trailer_for_values', params=[('values', Seq(Obj('ValC8')))],
+                                               ret=ANY, pure=True, assumed=True)}))
+    reg.add_family(Family('ModCtxC8', methods={'create_context': FnSpec('ModuleContext.create_context', params=[('node', Obj('PNode'))],
+                                                                       ret=ANY, pure=True, assumed=True)}))
+    reg.add_family(Family('ValC8', attrs={'string_names': Seq(STR)}, note='module values completed after a dot have a dotted name (assumed; the module of a path-less buffer is not reachable as the value before a dot)', methods={
+        'is_module': FnSpec('Value.is_module', ret=BOOL, pure=True)}))
+    reg.names['infer_call_of_leaf'] = FnSpec('infer_call_of_leaf', params=[('context', ANY), ('leaf', Obj('PNode'))],
+                                             ret=Seq(Obj('ValC8')), pure=True, assumed=True)
     reg.names['time'] = MNS('time', {'time': MFn('spec', 'time.time', spec=FnSpec(
         'time.time', params=[], ret=INT, pure=False, assumed=True, note='the clock: some number, a new one per call'))})
     reg.names['getattr'] = FnSpec('getattr(settings, name)', params=[('obj', ANY), ('name', STR)], ret=INT, pure=True,
